@@ -8,6 +8,7 @@ mod free;
 mod gen;
 mod json;
 mod l2;
+mod marathon;
 mod minimize;
 mod ops;
 mod oracle;
@@ -52,7 +53,7 @@ fn parse_args(raw: &[String]) -> Args {
     let mut flags = Vec::new();
     let takes_value = [
         "--seed", "--from", "--to", "--stride", "--offset", "--out", "--idx",
-        "--watchdog", "--family", "--tmp", "--plan", "--threads", "--budget", "--steps", "--part",
+        "--watchdog", "--family", "--tmp", "--plan", "--threads", "--budget", "--steps", "--part", "--ops", "--mode",
     ];
     let mut i = 0;
     while i < raw.len() {
@@ -300,6 +301,7 @@ fn real_main() -> Result<i32, String> {
         "gen" => cmd_gen(&a),
         "free" => free::cmd_free(&a.kv, &a.flags),
         "refeval" => oracle::refeval_main(),
+        "marathon" => marathon::cmd_marathon(a.u64("--ops", 1 << 20)?, a.u64("--mode", 7)? as u8),
         "hooks" => {
             println!("{}", engine::hooks_compiled());
             Ok(0)
